@@ -27,7 +27,8 @@ def special(rng):
     r, c = rng.choice([(6, 4), (8, 3), (4, 6)])
     inp = dict(shape=[r, c], chunks=[rng.choice([1, 2, 3]), rng.choice([1, 2, c])], dtype="float64", seed=rng.randint(0, 9),
                pattern="lin", src="asarray")
-    kind = rng.choice(["unstack", "mean", "var", "argmax", "sum0d", "rechunk", "qr", "multi2", "store_prefilled", "store_empty"])
+    kind = rng.choice(["unstack", "mean", "var", "argmax", "sum0d", "rechunk", "qr", "multi2", "store_prefilled", "store_empty",
+                       "store_sharded", "store_sharded"])
     if kind == "unstack":
         inp = dict(shape=[3, c], chunks=[rng.choice([1, 3]), rng.choice([1, 2])], dtype="float64", seed=2, pattern="lin", src="asarray")
         steps, outs = [dict(op="unstack", args=[0], kw=dict(axis=0)), dict(op="lincomb", args=[1, 3])], [4]
@@ -48,6 +49,13 @@ def special(rng):
         if kind == "store_prefilled":
             kw["prefill"] = -5
         steps, outs = [dict(op="scalar_add", args=[0], kw=dict(k=1)), dict(op="store_full", args=[1], kw=kw)], [2]
+    elif kind == "store_sharded":
+        # sharded target: one store key per shard; zarr's nchunks_initialized counts all chunks of every stored shard (also the
+        # ones of a ragged edge shard that lie outside the array), so "complete" must be judged in shards
+        shp = rng.choice([[10, 8], [10, 10], [8, 8], [6, 10], [12, 10]])
+        inp = dict(shape=shp, chunks=[4, 4], dtype="int64", seed=rng.randint(0, 9), pattern="lin", src="asarray")
+        steps, outs = [dict(op="scalar_add", args=[0], kw=dict(k=1)),
+                       dict(op="store_full", args=[1], kw=dict(tchunks=[2, 2], tshards=[4, 4]))], [2]
     elif kind == "qr":
         inp = dict(shape=[8, 2], chunks=[4, 2], dtype="float64", seed=3, pattern="lin", src="asarray")
         steps, outs = [dict(op="qr", args=[0]), dict(op="matmul", args=[1, 2])], [3]
@@ -70,7 +78,8 @@ def storage_state(plan):
         meta = os.path.exists(os.path.join(p, "zarr.json"))
         exp = None
         if a.get("chunks") is not None:
-            grid = [(-(-n // ch) if n > 0 else 0) for n, ch in zip(a["shape"], a["chunks"])]
+            unit = a.get("shards") or a["chunks"]          # one store key per shard if the array is sharded
+            grid = [(-(-n // ch) if n > 0 else 0) for n, ch in zip(a["shape"], unit)]
             exp = int(np.prod(grid)) if grid else 1
             if a.get("nfields"):
                 exp *= a["nfields"]
@@ -176,17 +185,34 @@ def run(chk):
     refused = 0
     done_prog = 0
     tries = 0
+    # deterministic part of every tier: stores into SHARDED targets at every crash point.  (10, 8) with chunks (2, 2) and shards
+    # (4, 4) is the geometry where 5 of 6 stored shards make zarr's nchunks_initialized equal nchunks (finding F27); in the second
+    # program the ragged sharded target is complete while a later operation is still running, so it must not be recomputed.
+    sh1 = dict(inputs=[dict(shape=[10, 8], chunks=[4, 4], dtype="int64", seed=4, pattern="lin", src="asarray")],
+               steps=[dict(op="scalar_add", args=[0], kw=dict(k=1)),
+                      dict(op="store_full", args=[1], kw=dict(tchunks=[2, 2], tshards=[4, 4]))], outs=[2], family="store_sharded")
+    sh2 = dict(inputs=[dict(shape=[10, 10], chunks=[4, 4], dtype="int64", seed=5, pattern="lin", src="asarray")],
+               steps=[dict(op="scalar_add", args=[0], kw=dict(k=1)),
+                      dict(op="store_full", args=[1], kw=dict(tchunks=[2, 2], tshards=[4, 4])),
+                      dict(op="negative", args=[0]), dict(op="sum", args=[3], kw=dict(axis=0))], outs=[2, 4], family="store_sharded_then")
+    forced = [(sh1, programs.Interp(np, False).run(sh1), True), (sh2, programs.Interp(np, False).run(sh2), False)]
+    nprog += len(forced)
     while done_prog < nprog and tries < nprog * 4:
         tries += 1
         m = tries % 3
-        prog, nv = special(rng) if m != 2 else (programs.structured(rng) if rng.random() < 0.5 else programs.gen_program(rng, max_steps=4))
-        optimize = rng.random() < 0.5 if prog.get("family") not in ("mean", "var", "argmax") else rng.random() < 0.3
+        if forced:
+            prog, nv, optimize = forced.pop(0)
+        else:
+            prog, nv = special(rng) if m != 2 else (programs.structured(rng) if rng.random() < 0.5 else programs.gen_program(rng, max_steps=4))
+            optimize = rng.random() < 0.5 if prog.get("family") not in ("mean", "var", "argmax") else rng.random() < 0.3
         cnt = count_points(prog, optimize)
         if cnt is None or cnt[0] > 60:
             continue
         ntasks, nsets = cnt
         pts = [("task", k) for k in range(1, ntasks)] + [("set", k, w) for k in range(1, nsets + 1) for w in ("before", "after")]
-        if len(pts) > per:
+        if prog.get("family") == "store_sharded_then":
+            pts = [p for p in pts if p[0] == "task"]
+        elif len(pts) > per and prog.get("family") != "store_sharded":      # few shards: every crash point of a sharded store
             pts = rng.sample(pts, per)
         done_prog += 1
         for cp in pts:
